@@ -36,6 +36,7 @@ class GoawayMonitor(object):
     def __init__(self, e_client):
         self.e_client = e_client
         self.W = 0                 # highest peer-opened stream id E has reported
+        self.R = 0                 # highest promised stream id E refused with RST_STREAM(REFUSED_STREAM)
         self.closed = False        # connection already closed (earlier raise / GOAWAY delivered)
         self.in_parser = wire.StreamParser(expect_preface=not e_client)
 
@@ -47,11 +48,26 @@ class GoawayMonitor(object):
             elif n == 'PushedStreamReceived':
                 self.W = max(self.W, e.pushed_stream_id)
 
+    def note_refusals(self, out_frames, rep):
+        # A PUSH_PROMISE on a stream E has reset is answered with RST_STREAM(REFUSED_STREAM) on the
+        # promised stream and no event.  The peer did reserve that stream (RFC 7540 section 5.1.1 counts
+        # reserved ids as used), E took no action on it beyond refusing it: both the refused id and the
+        # event watermark are legitimate last-stream-id values from then on (RFC 7540 section 6.8).
+        if not self.e_client:
+            return
+        for f in out_frames:
+            if (f.type == wire.RST_STREAM and not f.defects and f.error_code == RS
+                    and f.stream_id % 2 == 0 and f.stream_id > max(self.W, self.R)):
+                self.R = f.stream_id
+                rep.count('refused_promise_tracked')
+
     def check(self, data, res, rep, prefix='C18'):
         """Returns list of (key, description) problems for this call."""
         frames = self.in_parser.feed(data)
         probs = []
         was_closed = self.closed
+        if not was_closed:
+            self.note_refusals(res.frames, rep)
         if res.exc is None:
             self.note_events(res.events)
             if any(f.type == wire.GOAWAY and not f.defects for f in frames):
@@ -82,6 +98,9 @@ class GoawayMonitor(object):
                           'GOAWAY code %s but exception %s carries %r' % (g.error_code, type(res.exc).__name__, code)))
         # last-stream-id
         allowed = {self.W}
+        if self.R > self.W:
+            allowed.add(self.R)
+            rep.count('lastid_checked_after_refused_promise')
         # on an already closed connection no frame can open a stream any more: only W is acceptable
         for f in ([] if was_closed else frames):
             if f.type in (wire.HEADERS, wire.CONTINUATION) and not self.e_client:
